@@ -34,7 +34,8 @@ LEVEL_TEXT = ("Exploration: thousands of clouds (2-300 points; Gaussian, uniform
               "Integer-typed (voxel) clouds and clouds with coincident points are included; the length oracle is an own Prim implementation cross-checked against scipy where scipy's dense reading is sound."
               " Transform objects are also re-used: after another cloud and after a call with argument forms they reject."
               " Names given at call time; float32 clouds of 255 .. 513 points far from the origin."
-              " Constructions asked to use custom column names.")
+              " Constructions asked to use custom column names."
+              " A point buffer refilled in place and handed to the same transform object again.")
 LEVEL_NOTE = ("Points in general position (no duplicates). A replay step whose best and second-best "
               "costs differ by less than 1e-9 relative (1e-5 for float32 input, whose distances the "
               "library computes in float32) makes the case inconclusive for the parent comparison "
